@@ -47,6 +47,7 @@ pub fn worker_for(focus: Focus, ctx: &Ctx, mut wc: WorkerCtx) {
         let desc = format!("{}:{}", s.name, upto);
         wc.begin_case(ui as u64, desc.as_bytes());
         let mut found = vec![];
+        let unit_started = Instant::now();
         let (b_all, b_short, short_points) = match ctx.tier {
             Tier::Quick => (2usize, 3usize, 22usize),
             Tier::Thorough => (3, 4, 20),
@@ -60,7 +61,11 @@ pub fn worker_for(focus: Focus, ctx: &Ctx, mut wc: WorkerCtx) {
         };
         let mut st = first.clone();
         let mut bound = b_all;
-        if first.max_points <= short_points && found.is_empty() {
+        // quick tier: sessions that push more than 64 KiB through the kernel model cost ~10 ms per execution;
+        // they stay at the general bound (the thorough tier raises it for them too)
+        let payload: usize = s.acts.iter().map(|a| if let tc::Act::Write(n) = a { *n } else { 0 }).sum();
+        let heavy = ctx.tier == Tier::Quick && payload > 64 * 1024;
+        if first.max_points <= short_points && found.is_empty() && !heavy {
             match tc::explore_session(focus, s, *upto, b_short, 400_000, &mut found, &mut || wc.begin_case(ui as u64, desc.as_bytes())) {
                 Ok(s2) => {
                     st = s2;
@@ -83,7 +88,8 @@ pub fn worker_for(focus: Focus, ctx: &Ctx, mut wc: WorkerCtx) {
         }
         wc.note(
             "unit",
-            json!({"session": s.name, "upto": upto, "bound": bound, "executions": st.executions, "choice_points": st.max_points, "distinct_outcomes": st.distinct_outcomes}),
+            json!({"session": s.name, "upto": upto, "bound": bound, "executions": st.executions, "choice_points": st.max_points, "distinct_outcomes": st.distinct_outcomes,
+                   "wall_s": (unit_started.elapsed().as_secs_f64() * 100.0).round() / 100.0}),
         );
         for f in found {
             wc.violation(&Violation { key: f.key, what: f.what, witness: f.witness });
